@@ -1,3 +1,89 @@
-import Gp.Model.Layers.Udp
+import Gp.Lemmas.Layers.Udp
+/-
+  C05 for layers/udp.go (engine `ludp`): DecodeFromBytes keeps no stale state and does not
+  depend on the capacity of / the foreign bytes behind the data slice.
+
+  The only part of a UDP object that survives a decode is `tcpipchecksum.pseudoheader`
+  (model field `pseudo`): it is *configuration* installed by SetNetworkLayerForChecksum, never
+  assigned by any decoder, and not a decode result (fields, contents, payload, truncation).
+  The theorems therefore quantify over two arbitrary old values that agree on it.
+-/
 namespace Gp.C05.Udp
+open Gp Gp.Udp
+
+/-- No stale state, full strength: whenever at least a header is present the COMPLETE outcome
+    (every field, private port slices, contents, payload, truncation flag, error flag — also
+    on the "UDP packet too small" error path) is the same for any two old layer values. -/
+theorem decode_resets_all (old₁ old₂ : Layer) (hp : old₁.pseudo = old₂.pseudo) (data f₁ f₂ : Bytes)
+    (h8 : 8 ≤ data.length) :
+    decodeFromBytes old₁ { data := data, foreign := f₁ } = decodeFromBytes old₂ { data := data, foreign := f₂ } := by
+  rw [decode_eq, decode_eq]
+  match data, h8 with
+  | _ :: _ :: _ :: _ :: _ :: _ :: _ :: _ :: _, _ => simp only [decodeSpec, hp]
+
+/-- With fewer than 8 bytes the layer object is not touched at all and an error is returned
+    (so nothing of it is reported as decoded); error and truncation flags do not depend on it. -/
+theorem decode_short_untouched (old : Layer) (data foreign : Bytes) (h : data.length < 8) :
+    decodeFromBytes old { data := data, foreign := foreign } = .ok { layer := old, trunc := true, err := true } := by
+  simp [decodeFromBytes, GoSlice.len, h]
+
+/-- `decode_resets`: decoding into a used object = decoding into a fresh one (which carries the
+    same checksum configuration): equal on success — all fields, contents, payload, truncation
+    contribution — and the same error otherwise. -/
+theorem decode_resets (old : Layer) (data foreign : Bytes) :
+    decodeUdp old data foreign = decodeUdp { Layer.fresh with pseudo := old.pseudo } data foreign := by
+  by_cases h8 : 8 ≤ data.length
+  · unfold decodeUdp
+    rw [decode_resets_all old { Layer.fresh with pseudo := old.pseudo } rfl data foreign foreign h8]
+  · have h : data.length < 8 := by omega
+    unfold decodeUdp
+    rw [decode_short_untouched _ _ _ h, decode_short_untouched _ _ _ h]
+    rfl
+
+/-- Any two old values: `decodeUdp` agrees (the general form of `decode_resets`). -/
+theorem decode_resets_any (old₁ old₂ : Layer) (hp : old₁.pseudo = old₂.pseudo) (data foreign : Bytes) :
+    decodeUdp old₁ data foreign = decodeUdp old₂ data foreign := by
+  rw [decode_resets old₁, decode_resets old₂, hp]
+
+/-- The checksum configuration is the one thing a decode leaves alone. -/
+theorem decode_keeps_pseudo (old : Layer) (data foreign : Bytes) (o : DecOut)
+    (h : decodeFromBytes old { data := data, foreign := foreign } = .ok o) : o.layer.pseudo = old.pseudo := by
+  rw [decode_eq] at h
+  cases h
+  unfold decodeSpec
+  split
+  · dsimp only; split
+    · split <;> rfl
+    · split <;> rfl
+  · rfl
+
+/-- Capacity / foreign-byte independence: the outcome is a function of the visible bytes only
+    (NoCopy and Pool buffers give the same layer as a private copy; needed by C04 and C02). -/
+theorem decode_cap_independent (old : Layer) (data f₁ f₂ : Bytes) :
+    decodeFromBytes old { data := data, foreign := f₁ } = decodeFromBytes old { data := data, foreign := f₂ } := by
+  rw [decode_eq, decode_eq]
+
+theorem decodeUdp_cap_independent (old : Layer) (data f₁ f₂ : Bytes) :
+    decodeUdp old data f₁ = decodeUdp old data f₂ := by
+  unfold decodeUdp; rw [decode_cap_independent old data f₁ f₂]
+
+/-- Packet decoding = preallocated-layer decoding for this layer: the layer `decodeUDP` adds to a
+    packet is exactly what DecodeFromBytes puts into a fresh object, with the same truncation
+    and error outcome; on success the next decoder is chosen by NextLayerType. -/
+theorem packet_decode_is_layer_decode (ov : Overrides) (data foreign : Bytes) :
+    ∃ o, decodeFromBytes Layer.fresh { data := data, foreign := foreign } = .ok o ∧
+      decodeUDP ov { data := data, foreign := foreign } =
+        .ok { added := o.layer, transport := true, trunc := o.trunc, err := o.err,
+              next := if o.err then none else some (nextLayerType ov o.layer) } := by
+  refine ⟨_, decode_eq _ _ _, ?_⟩
+  unfold decodeUDP; rw [decode_eq]
+  simp only [bind, Res.bind, pure]
+  split <;> simp_all
+
+/-- non-vacuity: a used object holding a long payload and a jumbo datagram decoded into it -/
+example :
+    decodeUdp { Layer.fresh with srcPort := 9, length := 400, payload := [1, 2, 3], sPort := [0, 9], contents := [7] }
+      [0, 1, 0, 2, 0, 0, 0, 0, 0xaa] [0xbb]
+    = decodeUdp Layer.fresh [0, 1, 0, 2, 0, 0, 0, 0, 0xaa] [] := by decide
+
 end Gp.C05.Udp
